@@ -19,6 +19,66 @@ def nextafter(x, up):
     return x + eps if up else x - eps
 
 
+MODEL_KINDS = ('temperature models', 'composition models', 'grains models', 'velocity models')
+
+
+def degenerate_ranges(rng, w):
+    """rewrite the depth ranges of models of area features and plumes so that they touch the feature's own depth range in a single
+    depth (model starts where the feature ends, ends where it starts, or has no extent), optionally with the feature's max depth
+    given as a surface that reaches that depth only at one listed point; the catalogue then queries exactly those depths"""
+    t = w['truth']
+    styles = {}
+    for f, ft in zip(w['json']['features'], t['features']):
+        if ft['type'] not in wg.AREA and ft['type'] != 'plume':
+            continue
+        d0 = ft['d0']
+        d1 = ft['d1'] if ft['d1'] < 1e300 else None
+        models = [m for k in MODEL_KINDS for m in f.get(k, [])]
+        if not models or rng.random() < 0.3:
+            continue
+        style = rng.choice(['starts-at-feature-max', 'ends-at-feature-min', 'no-extent', 'two-layers', 'surface-vertex'])
+        if d1 is None and style in ('starts-at-feature-max', 'surface-vertex', 'two-layers'):
+            style = 'no-extent'
+        if ft['type'] == 'plume' and style == 'surface-vertex':
+            style = 'starts-at-feature-max'
+        mid = wg.R(d0 + 0.5 * ((d1 if d1 else d0 + 2e5) - d0))
+        for m in models:
+            if m.get('model') in ('plate model', 'half space model', 'plate model constant age', 'chapman') and style != 'two-layers':
+                continue
+            if style == 'starts-at-feature-max' or style == 'surface-vertex':
+                m['min depth'] = d1
+                m['max depth'] = wg.R(d1 + 4e4)
+            elif style == 'ends-at-feature-min':
+                m['min depth'] = 0.0 if d0 == 0 else wg.R(max(0.0, d0 - 3e4))
+                m['max depth'] = d0
+            elif style == 'no-extent':
+                m['min depth'] = mid
+                m['max depth'] = mid
+            elif style == 'two-layers':
+                if rng.random() < 0.5:
+                    m['max depth'] = mid
+                else:
+                    m['min depth'] = mid
+        if style == 'two-layers':
+            # a second copy of the first temperature model for the other layer, as in a two layer lithosphere
+            for k in MODEL_KINDS:
+                if f.get(k):
+                    import copy as _copy
+                    m2 = _copy.deepcopy(f[k][0])
+                    if 'max depth' in f[k][0] and f[k][0]['max depth'] == mid:
+                        m2.pop('max depth', None)
+                        m2['min depth'] = mid
+                    else:
+                        m2.pop('min depth', None)
+                        m2['max depth'] = mid
+                    f[k].append(m2)
+        if style == 'surface-vertex':
+            cx, cy = ft['centre']
+            f['max depth'] = [[wg.R(d1 + 5e4)], [d1, [[wg.R(cx), wg.R(cy)]]]]
+        styles[ft['name']] = (style, mid)
+    return styles
+
+
 def catalogue(rng, w, extreme):
     """-> list of (label, sx, sy, depth) in file units, and raw cartesian points list [(label, x, y, z, depth)]"""
     t = w['truth']
@@ -31,6 +91,21 @@ def catalogue(rng, w, extreme):
         d1 = ft['d1'] if ft['d1'] < 1e300 else None
         fdepths = [d0] + ([d1] if d1 is not None else []) + [nextafter(d0, True), nextafter(d0, False)] + ([nextafter(d1, True), nextafter(d1, False)] if d1 else [])
         mid = 0.5 * (d0 + (d1 if d1 else d0 + 2e5))
+        fj = next((f for f in w['json']['features'] if f.get('name') == ft['name']), None)
+        if fj is not None and (ft['type'] in wg.AREA or ft['type'] == 'plume'):
+            bounds = set()
+            for k in MODEL_KINDS:
+                for m in fj.get(k, []):
+                    for key in ('min depth', 'max depth'):
+                        if isinstance(m.get(key), (int, float)) and m[key] < 1e300:
+                            bounds.add(float(m[key]))
+            cxy = ft['centre'] if ft['type'] in wg.AREA else tuple(ft['coords'][-1])
+            for b in sorted(bounds):
+                for d in (b, nextafter(b, True), nextafter(b, False)):
+                    surf.append(('model-depth-bound', wg.R(cxy[0]), wg.R(cxy[1]), d))
+                if ft['type'] in wg.AREA:
+                    a = ft['poly'][0]
+                    surf.append(('model-depth-bound', a[0], a[1], b))
         if ft['type'] in wg.AREA:
             poly = ft['poly']
             n = len(poly)
@@ -110,7 +185,7 @@ def main(tier, seed, replay):
     rng = random.Random(seed * 4447 + 13)
     V = core.Verdict(PID, tier, seed)
     V.coverage['rule'] = ('generated worlds with finite parameters (all feature/model types, both systems) and corpus worlds queried (3D and 2D, full property lists) at a catalogue of degenerate locations derived from '
-                          'the truth record: polygon vertices and edge midpoints, feature min/max depths exactly and their floating point neighbours, plume centres/rims/tip, trench coordinates, points on the trench line and '
+                          'the truth record: polygon vertices and edge midpoints, feature min/max depths exactly and their floating point neighbours, the own min/max depth exactly and its neighbours (half of the worlds have model ranges rewritten to touch the range of the feature in one depth: starting where the feature ends, ending where it starts, without extent, two layers meeting at one depth, a max depth surface reaching the min depth of the model at one listed point), plume centres/rims/tip, trench coordinates, points on the trench line and '
                           'below it, slab surface and tip, dip point, poles, the date line with both signs of zero, the planet centre, cartesian surface heights at/below the min depth, random points (thorough: magnitudes '
                           'up to 1e12): every answer finite or a std::exception, no sanitizer report, signal or hang; non-trivial = catalogue points on a degenerate locus')
     quick = tier == 'quick'
@@ -119,6 +194,8 @@ def main(tier, seed, replay):
     for i in range(n_gen):
         wrng = random.Random(rng.getrandbits(48))
         w = wg.gen_world(wrng, {'nfeatures': (1, 5), 'p_grains': 0.5, 'p_velocity': 0.5})
+        if i % 2 == 1:
+            degenerate_ranges(wrng, w)
         fn = 'w%d.wb' % i
         c = core.Case('w%d' % i, files={fn: wg.dumps(w['json'])})
         world(c, 1, core.workfile(PID, fn))
